@@ -192,8 +192,11 @@ CLAIMED["C05"] = dict(
          "invoke inside loops) x shrunk register file K x pressure n x argument mode x value mode x every entry of a 120-op alphabet in the slot (fixed/implicit registers, "
          "RW/W zero-extending ops, 8-bit and high-byte ops, spill-prone memory forms, vector and mask groups, cmpxchg/mul/div/shift-by-CL); each program is interpreted by a "
          "reference interpreter over named values and compared with the register-allocated code - executed natively (x86-64, fixed input set: return value, memory buffer, "
-         "external-call log) or interpreted by the msim machine simulator (x86-32, AArch64).",
-    note="Programs outside the shapes/alphabet and inputs outside the fixed set are not covered; x86-32 and AArch64 results rely on the harness's simulator.",
+         "external-call log) or interpreted by the msim machine simulator (x86-32, AArch64). Lists leg (harness/c05_lists.cpp): 37 register-list forms (AArch64 ld1-ld4/st1-st4/ldNr/lane forms, "
+         "tbl/tbx with 1-4 table registers; x86 vp2intersectd/q mask pairs) x every member tuple over the first values (overlapping, conflicting, repeated members) x 1-3 list instructions x "
+         "straight/diamond/loop x shrunk and full register files: an uninterpreted-term simulation of the allocated node list against the IR (operand roles from the ISA database): "
+         "physical ids consecutive, every instruction reads the reference terms, live members survive, satisfiable programs compile, unsatisfiable ones are refused.",
+    note="Programs outside the shapes/alphabet and inputs outside the fixed set are not covered; x86-32 and AArch64 results rely on the harness's simulator; list instructions are judged as uninterpreted functions of their operands.",
     technique="bounded exhaustive enumeration of programs (shape x register-file size x pressure x alphabet) on the real Compiler with a reference interpreter / native execution / simulator as oracle",
     design_ref="3/C05", engine="harness/c05_ra.cpp")
 
